@@ -48,10 +48,21 @@ class _Licensing(Licensing):
     """:class:`Licensing` whose :meth:`parse` reports every malformed
     expression as an :class:`ExpressionError`."""
 
+    #: Everything that is done with an expression afterwards - printing,
+    #: comparing, pickling - recurses into it. A few hundred levels of
+    #: parentheses, which still fit into a file header, exhaust the stack.
+    MAX_NESTING = 100
+
     def parse(self, *args: Any, **kwargs: Any) -> Any:
         try:
+            if args and isinstance(args[0], str):
+                depth = 0
+                for character in args[0]:
+                    depth += (character == "(") - (character == ")")
+                    if depth > self.MAX_NESTING:
+                        raise RecursionError()
             return super().parse(*args, **kwargs)
-        except (IndexError, AssertionError) as error:
+        except (IndexError, AssertionError, RecursionError) as error:
             # license_expression raises IndexError for e.g. '()', and
             # boolean.py an AssertionError for e.g. '( AND MIT'.
             raise ExpressionError(
